@@ -75,6 +75,20 @@ func (sig Multi[T]) Len() int {
 	return len(sig)
 }
 
+// hasDuplicateSigners returns true if the same signer appears more than once.
+// Such a signature must not verify: Len() counts entries, and the quorum checks rely on
+// every entry being the signature of a distinct replica.
+func (sig Multi[T]) hasDuplicateSigners() bool {
+	for i, s := range sig {
+		for _, other := range sig[:i] {
+			if other.Signer() == s.Signer() {
+				return true
+			}
+		}
+	}
+	return false
+}
+
 func (sig Multi[T]) String() string {
 	return hotstuff.IDSetToString(sig)
 }
